@@ -25,6 +25,7 @@ EXPLANATION = (
     " Fourth session: (exchange-framed) borrowed from C15: the final response is cut into exactly the fragments the peer reassembles and a request's data set is waited for."
     ' Fifth round: `attempt` is evaluated in its class form or, written as a @contextmanager generator, by a rule over the generator (exactly one yield, inside a try whose handler catches BaseException or everything, sends the failure response once with error_status and does not re-raise); (categories-correct) borrowed from C28.'
     ' Fifth round (end): Send helpers: a method that sends the response primitive it was handed exactly once on every normal path (context id a parameter or `<context parameter>.context_id`) is summarised and a call of it is a send of its argument.'
+    ' Sixth round: (request-served) is_valid_request / is_valid_response evaluated per primitive class with legal falsy values.'
 )
 
 
